@@ -10,6 +10,14 @@ CHECKS = {
  "C01": ("4 C01", "R1 exhaustive TLC model check of the verify pipeline against the declarative cofactored predicate on the scaled group Z_17 x Z_8; "
          "R2 TLC-enumerated case matrix (23 x 23 point kinds x S rules x variants x lengths + bit perturbations) replayed on the real Verify/VerifyWithOptions/VerifyBatch; "
          "R3 every call validated by TLC against Verify.tla in exact 253/512-bit arithmetic"),
+ "C02": ("4 C02", "R1: TLC checks the option table and the dom2 layout (injective, prefix-free) exhaustively over a small alphabet; R3: every key derivation / signature of the driver "
+         "(special and random seeds x 10 variant/context pairs x message lengths, every entry point twice, counting entropy reader) validated by TLC against SignSpec.tla in exact "
+         "arithmetic: clamp, r and k reductions mod L, S = (r + k a) mod L, dom2 bytes, determinism, entropy untouched, equality with crypto/ed25519"),
+ "C03": ("4 C03", "R1: HonestAccepted invariant (S = r + h a accepted in both modes for a, r != 0) on the scaled group; R3: every produced signature verified by Verify / VerifyWithOptions "
+         "(default, ZIP-215) / VerifyBatch membership (sizes 1,3,4,5,64,65,129, all positions), verdicts validated by TLC through the Verify pipeline; S < L, a != 0, r != 0 required per signature"),
+ "C07": ("4 C07", "R1: dom2 injectivity / prefix-freeness and the context-length / digest-length / hash-selector outcome table checked by TLC; R2/R3: ordered pairs of 14 (variant, context) pairs "
+         "(1-bit, length-only, trailing-zero, 254/255, cross-variant differences) signed under one and verified under the other (single, ZIP-215, batch), verdict computed by TLC from the verifier-side hash; "
+         "option matrix replayed on Sign / VerifyWithOptions / VerifyBatch with refusal surface and selected variant validated against SignSpec!Outcome / Surface"),
  "C04": ("4 C04", "R1: scMinimal ladder == (S<L) for all scaled scalars + uniqueness of accepted S (and the typo mask 244 is refuted by TLC as a control); "
          "R2/R3: boundary family (S in {0,1,2^252-1,2^252,2^252+1,L-1,L,L+1,2^253-1,...}) made accepting through small-order keys in ZIP-215 mode, S+kL, bit flips, in all four verifier modes, "
          "plus direct conformance of scMinimal on a boundary-dense set; all verdicts decided by TLC with BigNat comparison against L"),
